@@ -85,16 +85,14 @@ def _run_dask(
     :param method: None (linear execution), "threaded" or callable
         to apply when computing.
     """
-    if expand_arg:
-        graph = dict(
-            (f"{name}-{data.name}-{index}", (func, *item))  # type: ignore
-            for index, item in enumerate(data.__dask_keys__())
-        )
-    else:
-        graph = dict(
-            (f"{name}-{data.name}-{index}", (func, item))
-            for index, item in enumerate(data.__dask_keys__())
-        )
+    # One task per block (the keys of an N-D array are nested lists; blocks of one row of the
+    # chunk grid need not have the same shape, so they cannot be stacked into one argument)
+    from dask.core import flatten
+
+    graph = dict(
+        (f"{name}-{data.name}-{index}", (func, key))
+        for index, key in enumerate(flatten(data.__dask_keys__()))
+    )
     items = list(graph.keys())
     result_name = f"{name}-{data.name}-result"
     graph.update(data.dask)
